@@ -2,7 +2,7 @@
 //! documented pipelines over the simulator's seams, makes a parser or matcher
 //! panic or hang; every Summary call history returns normally.
 //!
-//! Four pipelines, each real library code wired as the crate's docs/examples
+//! Five pipelines, each real library code wired as the crate's docs/examples
 //! wire it.  Documents are valid documents corrupted "in storage or in flight"
 //! by a seeded list of corruption faults, then delivered under reader / writer
 //! / file-system faults.  Monitors: panic (catch_unwind), seam-call budgets
@@ -78,6 +78,13 @@ pub enum Sc {
     },
     /// Summary call histories
     D { seed: u64, ops: Vec<DOp> },
+    /// pkg_summary stream -> entries -> dependency / conflict resolution
+    E {
+        doc: Bytes,
+        script: Vec<ReadStep>,
+        hash_seed: u64,
+        corruptions: Vec<String>,
+    },
 }
 
 pub struct C17;
@@ -969,6 +976,87 @@ fn pipeline_d(seed: u64, ops: &[DOp], ctx: &mut Ctx) -> Outcome {
     Ok(())
 }
 
+const E_PATTERNS: [&str; 12] = [
+    "dep-pkg1-[0-9]*",
+    "dep-pkg2>=2.0",
+    "librsvg>=2.12<2.41",
+    "{mysql,mariadb}-client>=5<9",
+    "perl>=5.0nb2",
+    "py3{10,11,12}-setuptools-[0-9]*",
+    "foo-1.0",
+    "a-{b,c}-{d{e,f},g}-h>=1",
+    "lib*-[0-9]*",
+    "pkg<7alpha1",
+    "x>=1.0rc2nb3",
+    "gl?b-[a-z]*",
+];
+
+fn gen_summary_stream(rng: &mut Rng) -> Vec<u8> {
+    let n = rng.urange(1, 4);
+    let mut out = String::new();
+    for _ in 0..n {
+        let mut e = gen_entry(rng, false, false);
+        e.insert(
+            15,
+            Val::S(
+                rng.pick_str(&["dep-pkg1-1.0", "dep-pkg2-2.1nb3", "mysql-client-8.0.36", "perl-5.38.2", "foo-1.0", "librsvg-2.40.21"])
+                    .to_string(),
+            ),
+        );
+        e.insert(16, Val::S(rng.pick_str(&["cat/pkg", "../../lang/perl5", "databases/mysql-client"]).to_string()));
+        for var in [3usize, 4, 22] {
+            if rng.chance(2, 3) {
+                let k = rng.urange(1, 4);
+                e.insert(var, Val::A((0..k).map(|_| rng.pick_str(&E_PATTERNS).to_string()).collect()));
+            }
+        }
+        out.push_str(&print_entry(&e));
+        out.push('\n');
+    }
+    out.into_bytes()
+}
+
+fn pipeline_e(doc: &[u8], script: &[ReadStep], hash_seed: u64, ctx: &mut Ctx) -> Outcome {
+    set_hash_seed(hash_seed);
+    let mut reader = SimReader::new(doc.to_vec(), script.to_vec());
+    let log = reader.log();
+    let mut stream = SummaryStream::new();
+    let r = std::io::copy(&mut reader, &mut stream);
+    log.borrow().absorb(ctx, "read");
+    ep!(ctx, "io::copy into SummaryStream", r.is_ok());
+    let _ = stream.to_string();
+    let names: Vec<String> = stream
+        .entries()
+        .iter()
+        .filter_map(|e| e.pkgname().map(|s| clip(s, 64).to_string()))
+        .chain(["dep-pkg2-2.1nb3".to_string(), "mariadb-client-5.5".to_string()])
+        .take(8)
+        .collect();
+    for e in stream.entries().iter().take(6) {
+        let _ = (e.pkgbase(), e.pkgversion(), e.is_completed(), e.description_as_str());
+        if let Some(p) = e.pkgname() {
+            let n = PkgName::new(clip(p, 200));
+            let _ = (n.pkgbase(), n.pkgversion(), n.pkgrevision());
+            ep!(ctx, "PkgName::new", true);
+        }
+        for p in [e.pkgpath(), e.prev_pkgpath()].into_iter().flatten() {
+            let r = PkgPath::new(clip(p, 200));
+            ep!(ctx, "PkgPath::new", r.is_ok());
+        }
+        for list in [e.depends(), e.conflicts(), e.supersedes()].into_iter().flatten() {
+            for d in list.iter().take(6) {
+                let p = Pattern::new(clip(d, 160));
+                ep!(ctx, "Pattern::new", p.is_ok());
+                if let Ok(p) = p {
+                    exercise_pattern(ctx, &p, &names);
+                }
+            }
+        }
+    }
+    set_hash_seed(0);
+    Ok(())
+}
+
 fn gen_chunks(rng: &mut Rng) -> Vec<usize> {
     match rng.below(4) {
         0 => Vec::new(),
@@ -1029,7 +1117,20 @@ impl Property for C17 {
 
     fn generate(&self, rng: &mut Rng, run: u64, tier: Tier) -> Sc {
         // pipelines B and C build directory trees (slower): fewer of them
-        match rng.below(16) {
+        match rng.below(19) {
+            16..=18 => {
+                let mut doc = gen_summary_stream(rng);
+                let other = gen_summary_stream(rng);
+                let mut log = Vec::new();
+                corrupt_some(rng, &mut doc, &other, &mut log);
+                let script = gen_read_script(rng, doc.len());
+                Sc::E {
+                    doc: Bytes(doc),
+                    script,
+                    hash_seed: rng.next_u64(),
+                    corruptions: log,
+                }
+            }
             0..=5 => {
                 let base = c16::C16.generate(rng, run, tier);
                 let mut doc = c16::render(&base).bytes;
@@ -1226,6 +1327,18 @@ impl Property for C17 {
                 ctx.sched = crate::rng::mix(ctx.sched, *seed);
                 pipeline_d(*seed, ops, ctx)
             }
+            Sc::E {
+                doc,
+                script,
+                hash_seed,
+                corruptions,
+            } => {
+                ctx.probe("pipeline-E");
+                for c in corruptions {
+                    count_corruption(ctx, c);
+                }
+                pipeline_e(&doc.0, script, *hash_seed, ctx)
+            }
         }
     }
 
@@ -1370,6 +1483,29 @@ impl Property for C17 {
                     });
                 }
             }
+            Sc::E {
+                doc,
+                script,
+                hash_seed,
+                corruptions,
+            } => {
+                for s in shrink_vec(script) {
+                    out.push(Sc::E {
+                        doc: doc.clone(),
+                        script: s,
+                        hash_seed: *hash_seed,
+                        corruptions: vec![],
+                    });
+                }
+                for d in shrink_bytes(&doc.0) {
+                    out.push(Sc::E {
+                        doc: Bytes(d),
+                        script: script.clone(),
+                        hash_seed: *hash_seed,
+                        corruptions: corruptions.clone(),
+                    });
+                }
+            }
         }
         out
     }
@@ -1380,13 +1516,15 @@ impl Property for C17 {
             Sc::B { .. } => "pipeline-B",
             Sc::C { .. } => "pipeline-C",
             Sc::D { .. } => "pipeline-D",
+            Sc::E { .. } => "pipeline-E",
         }
         .to_string()
     }
 
     fn rule(&self) -> String {
         "Each run picks one of four pipelines (A bulk scan -> dependency resolution, B package database -> \
-         pkg_summary, C distinfo -> verification, D Summary call histories), generates valid documents, applies 0..3 \
+         pkg_summary, C distinfo -> verification, D Summary call histories, E pkg_summary stream -> dependency \
+         resolution), generates valid documents, applies 0..3 \
          corruption faults (bit flip, span drop/duplication/repetition, splice, truncation, NUL, non-UTF-8, long \
          line, garble, huge number, repeated brace group, byte swap/set; plus empty and garbage metadata files) and \
          delivers them through scripted BufRead/Read seams (short reads, EINTR, hard error, early EOF), a scratch \
@@ -1402,6 +1540,7 @@ impl Property for C17 {
             "PkgDB::open + iterator, Package accessors + read_metadata, Metadata::{read_metadata,is_valid,getters}, Plist::from_bytes + all queries, PlistEntry::from_bytes, SummaryVariable::from_str, Summary setters/pushers/Display/from_str, SummaryStream write/flush/Display/entries/entries_mut, MetadataEntry::from_filename (pipeline B)",
             "Distinfo::{from_bytes,as_bytes,rcsid,distfiles,patchfiles,find_entry,get_distfile,get_patchfile,verify_size,verify_checksum,verify_checksums,calculate_size,calculate_checksum}, Entry::{verify_*,as_bytes}, EntryType::from, Digest::{from_str,hash_file,hash_patch} (pipeline C)",
             "every public Summary setter/pusher/getter, Clone, Display, FromStr under hostile hash seeds (pipeline D)",
+            "std::io::copy into SummaryStream, Summary getters, Pattern/PkgName/PkgPath on DEPENDS/CONFLICTS/SUPERSEDES/PKGNAME/PKGPATH values (pipeline E)",
         ]
     }
     fn components_stub(&self) -> Vec<&'static str> {
@@ -1424,6 +1563,9 @@ impl Property for C17 {
             "pipeline-B",
             "pipeline-C",
             "pipeline-D",
+            "pipeline-E",
+            "ep io::copy into SummaryStream ok",
+            "ep io::copy into SummaryStream err",
             "ep ScanIndex::from_reader ok",
             "ep ScanIndex::from_reader err",
             "ep Depend::new ok",
